@@ -14,10 +14,18 @@ import (
 	"time"
 )
 
-const (
+var (
 	repoRoot  = "/repo"
 	verifRoot = "/verif"
 )
+
+func init() {
+	// the thorough tier's self-test runs the same check against a scratch copy of the tree with a stored
+	// property-breaking change applied
+	if r := os.Getenv("VERIF_REPO"); r != "" {
+		repoRoot = r
+	}
+}
 
 type KnownFinding struct {
 	Kind       string // finding | fixed
@@ -124,7 +132,7 @@ func cmdCheck(args []string) int {
 		seed, _ = strconv.Atoi(s)
 	}
 	start := time.Now()
-	partialRun = *only != ""
+	partialRun = *only != "" || os.Getenv("VERIF_SELFTEST") != ""
 	curProp = prop
 	timeoutS := 30
 	if *tier == "thorough" {
